@@ -9,6 +9,8 @@ CONSTANTS
   Bug = "escape"
   MaxConnect = 2
   MaxCrash = 1
+  MaxOther = 0
+  OtherTables <- OtherTabs
   MaxEnv = 1
 INVARIANT SetupsOK
 INVARIANT ConnectionOK
